@@ -4,9 +4,38 @@
 #include "corr.h"
 #include <ctype.h>
 
+/* `cfun list <capacity> <op>,<op>,...`: p<v> push, o pop, s shift, g<i> get, r<i>:<v> replace, z size, c clear.
+   prints every return value, then first last max_size current_size and the used slots in logical order */
+static int cfun_list(char **t) {
+    size_t cap = strtoul(t[1], NULL, 10);
+    if (cap == 0) return 0;
+    htp_list_array_t *l = htp_list_array_create(cap);
+    if (l == NULL) return 0;
+    char *ops = t[2], *save = NULL;
+    for (char *o = strtok_r(ops, ",", &save); o; o = strtok_r(NULL, ",", &save)) {
+        switch (o[0]) {
+            case 'p': printf("%d,", htp_list_array_push(l, (void *) (uintptr_t) strtoul(o + 1, NULL, 10))); break;
+            case 'o': printf("%lu,", (unsigned long) (uintptr_t) htp_list_array_pop(l)); break;
+            case 's': printf("%lu,", (unsigned long) (uintptr_t) htp_list_array_shift(l)); break;
+            case 'g': printf("%lu,", (unsigned long) (uintptr_t) htp_list_array_get(l, strtoul(o + 1, NULL, 10))); break;
+            case 'r': { char *c = strchr(o, ':'); if (!c) { htp_list_array_destroy(l); return 0; }
+                        printf("%d,", htp_list_array_replace(l, strtoul(o + 1, NULL, 10), (void *) (uintptr_t) strtoul(c + 1, NULL, 10))); break; }
+            case 'z': printf("%zu,", htp_list_array_size(l)); break;
+            case 'c': htp_list_array_clear(l); printf("0,"); break;
+            default: htp_list_array_destroy(l); return 0;
+        }
+    }
+    printf(" %zu %zu %zu %zu [", l->first, l->last, l->max_size, l->current_size);
+    for (size_t i = 0; i < l->current_size; i++) printf("%s%lu", i ? " " : "", (unsigned long) (uintptr_t) l->elements[(l->first + i) % l->max_size]);
+    printf("]");
+    htp_list_array_destroy(l);
+    return 1;
+}
+
 int op_cfun(int n, char **t) {
     if (n < 2) return 0;
     const char *f = t[0];
+    if (n == 3 && !strcmp(f, "list")) return cfun_list(t);
     if (n == 2 && (!strcmp(f, "htp_is_lws") || !strcmp(f, "htp_is_text") || !strcmp(f, "htp_is_folding_char")
                    || !strcmp(f, "htp_is_space") || !strcmp(f, "htp_is_separator") || !strcmp(f, "htp_is_token"))) {
         int c = (int) strtol(t[1], NULL, 10);
